@@ -47,6 +47,7 @@ class TlcResult:
 
 
 _STATS = re.compile(r"(\d+) states generated, (\d+) distinct states found")
+_SIMSTATS = re.compile(r"The number of states generated: (\d+)")
 _DEPTH = re.compile(r"The depth of the complete state graph search is (\d+)")
 _COV = re.compile(r"^<(\w+) line (\d+), col (\d+) to line (\d+), col (\d+) of module (\w+)>: (\d+):(\d+)")
 _INVVIOL = re.compile(r"Error: Invariant (\w+) is violated|Error: Action property (\w+) is violated|Error: Temporal properties were violated")
@@ -108,6 +109,9 @@ def run_tlc(module, cfg_text, *, workers=None, simulate=None, depth=None, seed=N
                 m = _STATS.search(line)
                 if m:
                     res.states, res.distinct = int(m.group(1)), int(m.group(2))
+                m = _SIMSTATS.search(line)
+                if m:
+                    res.states = res.distinct = int(m.group(1))
                 m = _DEPTH.search(line)
                 if m:
                     res.depth = int(m.group(1))
